@@ -128,6 +128,13 @@ def make_exc(spec):
     raise AssertionError(spec)
 
 
+class Unpicklable(str):
+    """A string value that cannot be pickled (stands for 'disk full' / unpicklable result while an element is stored)."""
+
+    def __reduce_ex__(self, protocol):
+        raise RuntimeError("injected: value cannot be pickled")
+
+
 _COUNTER = [0]
 _CLOCK = threading.Lock()
 
@@ -195,6 +202,9 @@ def make_probe(name, params, nout=1, log=None, internal_shape=None, ret_list=Fal
                 return base
 
             out = one(0) if nout == 1 else tuple(one(o) for o in range(nout))
+            if fault and fault.get("unpicklable") and t in fault["unpicklable"] and nout > 1 and not internal_shape:
+                # the LAST output of this invocation cannot be stored: earlier outputs of the element get written, this one not
+                out = (*out[:-1], Unpicklable(out[-1]))
             if ret is not None:  # a falsy / None-valued result (first output only for tuple outputs)
                 fv = FALSY[ret]
                 fv = list(fv) if isinstance(fv, list) else fv
